@@ -612,8 +612,13 @@ def close(a, b, tol=Fraction(1, 10 ** 8)):
 def check_reported(sess, S):
     """value / error of the derived value against brute-force recomputation from the retrieved samples S"""
     r = sess.res
-    v1, e1 = r.value, r.error
-    v2, e2 = r.value, r.error
+    try:
+        with mc.time_limit(5.0):
+            v1, e1 = r.value, r.error
+            v2, e2 = r.value, r.error
+    except TimeoutError:
+        return "reading value / error does not return (strategy {}, confidence {})".format(
+            sess.ev.settings.strategy, sess.ev.settings.confidence)
     same = lambda a, b: (mc.num_obs(a) == mc.num_obs(b))
     if not (same(v1, v2) and same(e1, e2)):
         return "repeated reads differ: ({}, {}) then ({}, {})".format(v1, e1, v2, e2)
@@ -689,6 +694,8 @@ def _check_history_oracle(case, total_formula=None):
                 if o[0] == "mutate" and (o[1] >= len(sess.handed) or o[2] >= len(sess.handed[o[1]])):
                     continue
                 ob, wpd, w10 = sess.step(o)
+                if ob == ["exn", "Timeout"]:
+                    return "step {} {}: the call does not return".format(idx, o)
                 ok = ob[0] != "exn"
                 if o[0] == "use_custom":
                     if ok:
